@@ -722,6 +722,11 @@ func (d *deriver) closureParam(fn *ssa.Function, par *ssa.Parameter) []Deriv {
 		found = true
 		site := e.Site.Common()
 		if e.Kind == "extcallback" {
+			if ai, ok := extElemCallback(site); ok {
+				// slices.ContainsFunc(s, f) and friends call f with elements of s
+				out = append(out, strictAll(d.derive(site.Args[ai]))...)
+				continue
+			}
 			out = append(out, Deriv{Unknown: "argument supplied by an external function"})
 			continue
 		}
@@ -903,4 +908,25 @@ func (p *Prog) DeriveWithSources(v ssa.Value, sources map[string]bool) []Deriv {
 func (p *Prog) DeriveAll(v ssa.Value) []Deriv {
 	d := &deriver{p: p, g: p.CG(), seen: map[ssa.Value]bool{}, allFields: true}
 	return dedupDerivs(d.derive(v))
+}
+
+// extElemCallback: the external function called at site invokes its callback argument with elements of
+// one of its slice arguments only (and does nothing else with the callback); returns that argument's index.
+func extElemCallback(site *ssa.CallCommon) (int, bool) {
+	sc := site.StaticCallee()
+	if sc == nil {
+		return 0, false
+	}
+	o := sc.Origin()
+	if o == nil {
+		o = sc
+	}
+	if o.Pkg == nil || o.Pkg.Pkg.Path() != "slices" {
+		return 0, false
+	}
+	switch o.Name() {
+	case "ContainsFunc", "IndexFunc", "DeleteFunc", "SortFunc", "SortStableFunc", "IsSortedFunc", "MinFunc", "MaxFunc":
+		return 0, true
+	}
+	return 0, false
 }
